@@ -113,3 +113,12 @@ From XcpProofs Require Import XOps.
 Theorem C11_src_queue_file_blocks_steps : x_queue_file_blocks_steps = queue_file_blocks_steps.
 Proof. exact x_queue_file_blocks_steps_ok. Qed.
 Print Assumptions C11_src_queue_file_blocks_steps.
+
+(* ---- nothing is carried from one file of a run to the next: the inventory of process-wide state (statics,
+   thread-locals, umask calls) of the current source, regenerated by the translator on every run ---- *)
+From XcpProofs Require Import XState.
+From Coq Require Import String.
+Theorem C11_src_no_state_carried_between_files :
+  x_static_items = ["libxcp/src/backup.rs::BAK_REGEX"%string] /\ x_thread_locals = [] /\ x_umask_calls = 0%N.
+Proof. exact x_process_wide_state_ok. Qed.
+Print Assumptions C11_src_no_state_carried_between_files.
